@@ -118,6 +118,20 @@ def generate(rng, tier):
             lines += ['gb.newloop %d 0 0 0' % i] + sysgen.scene_lines(_r.Random(rng.randrange(1 << 30)), i)
         lines += ['gb.conc %d %d' % (nI, 6 if tier == 'quick' else 20)] + ['gb.pix %d' % i for i in range(nI)] + obs_all(nI)
         cases.append(('pardraw%d' % rep, lines))
+    # a ROM-only machine keeps its image when later machines are loaded from other (not larger) files
+    for rep in range(2 if tier == 'quick' else 8):
+        lines = ['gb.newloop 0 0 0 0', 'gb.rr 0 320 335', 'gb.newloop 1 %d 0 %d' % (rng.choice([1, 3, 19, 27]), rng.choice([2, 3])),
+                 'gb.rr 0 320 335', 'gb.rr 1 320 335', 'gb.newsyn 2 0 0 0', 'gb.rr 0 320 335', 'gb.rr 0 16384 16399',
+                 'gb.rr 2 16384 16399', 'gb.frames 0 1', 'gb.obs 0']
+        cases.append(('romkeep%d' % rep, lines))
+    # a machine in STOP mode is woken by its own buttons only
+    for rep in range(2 if tier == 'quick' else 8):
+        lines = ['gb.newloop 0 0 0 0', 'gb.newloop 1 0 0 0']
+        for j, b in enumerate([0x10, 0x00, 0x3c, 0x18, 0xfd]):
+            lines.append('gb.w 0 %d %d' % (0xc000 + j, b))
+        lines += ['gb.set 0 1 2 3 4 5 0 6 7 57343 49152', 'gb.cyc 0 20', 'gb.obs 0', 'gb.btn 1 %d 1' % rng.randrange(8), 'gb.cyc 1 5', 'gb.cyc 0 50', 'gb.obs 0',
+                  'gb.btn 1 %d 0' % rng.randrange(8), 'gb.cyc 0 50', 'gb.obs 0', 'gb.obs 1']
+        cases.append(('stopwake%d' % rep, lines))
     # external RAM of cartridges that declare none / some: written on one instance, read on the others
     nram = 0
     for typ, ramc in [(0x01, 0), (0x00, 0), (0x11, 0), (0x19, 0), (0x03, 2), (0x13, 3), (0x1b, 2), (0x06, 0)]:
